@@ -47,6 +47,9 @@ impl SystemEventAccessTracker
         self.data_entity = data_entity;
     }
 
+    #[cfg(feature = "verif_hooks")]
+    pub(crate) fn verif_state(&self) -> (bool, usize) { (self.currently_reacting, self.prepared.len()) }
+
     /// Unsets the 'is reacting' flag.
     ///
     /// Returns the data entity so it can be despawned.
